@@ -467,6 +467,31 @@ def rewrite_method_chain(text, methods, fn, cnt, where):
     return toks_text(out)
 
 
+def apply_closure_edit(new_body, a, b, typed, bind, clines, lno, where):
+    """R11: the closure literal whose head `|pat|` spans new_body[a:b] gets a typed head and a contract; returns (text of the new closure literal, end offset of the old one)"""
+    btoks = [t for t in lex(new_body) if t.kind in CODE and t.start >= b]
+    if not btoks:
+        raise AnchorLost("%s: closure has no body" % where)
+    if btoks[0].text == "{":
+        allt = lex(new_body)
+        qi = next(idx for idx, t in enumerate(allt) if t.start == btoks[0].start)
+        e = allt[match_close(allt, qi)].end
+    else:
+        depth, e = 0, None
+        for t in btoks:
+            if t.kind == "p" and t.text in "([{": depth += 1
+            elif t.kind == "p" and t.text in ")]}":
+                if depth == 0: e = t.start; break
+                depth -= 1
+            elif t.kind == "p" and t.text == "," and depth == 0:
+                e = t.start; break
+        if e is None:
+            raise AnchorLost("%s: closure: end of body not found" % where)
+    cb = new_body[btoks[0].start:e].rstrip()
+    text = "\n".join(x[1] for x in clines)
+    return typed + "\n/*@ghost-begin %d*/\n%s\n/*@ghost-end*/\n{ %s %s }" % (lno, text, bind, cb), e
+
+
 def replace_all_calls(text, head, repl, cnt):
     """R6: every `<head>(...)` / `<head>!(...)` call is replaced by `repl` (arguments dropped)"""
     while True:
@@ -939,6 +964,35 @@ class Unit:
             if ln.startswith("//@rewrite"):
                 frm, to, expect, _w = _parse_rewrite(ln, self.vc_path, lno - 1)
                 new_expr = apply_literal_rewrite(new_expr, frm, to, expect, self.counts, name_hint(variant))
+        # R11 in an arm: a closure literal kept verbatim gets a typed head and a contract (`//@closure` + the lines up to the next directive)
+        arm_closure_lines = set()
+        bi = 0
+        while bi < len(block):
+            lno, ln = block[bi]
+            if ln.startswith("//@closure"):
+                m = re.match(r"//@closure\s+`(.*?)`\s*=>\s*`(.*?)`(?:\s+bind\s+`(.*?)`)?\s*$", ln)
+                if not m:
+                    raise AnchorLost("%s:%d: bad //@closure" % (self.vc_path, lno))
+                arm_closure_lines.add(bi)
+                cl = []
+                bj = bi + 1
+                while bj < len(block) and not block[bj][1].startswith("//@"):
+                    cl.append(block[bj]); arm_closure_lines.add(bj); bj += 1
+                a, b = find_anchor(new_expr, m.group(1), "%s (%s:%d)" % (name_hint(variant), os.path.basename(self.vc_path), lno))
+                ctext, e = apply_closure_edit(new_expr, a, b, m.group(2), m.group(3) or "", cl, lno, "%s: closure `%s`" % (name_hint(variant), m.group(1)))
+                new_expr = new_expr[:a] + ctext + new_expr[e:]
+                self.counts.add("R11.closure-head-typed `%s` => `%s`" % (m.group(1), m.group(2)))
+                self.counts.add("ghost-insertions")
+                bi = bj; continue
+            bi += 1
+        block = [x for q, x in enumerate(block) if q not in arm_closure_lines]
+        for lno, ln in block:
+            if ln.startswith("//@chain"):
+                m = re.match(r"//@chain\s+`(.*?)`\s*=>\s*`(.*?)`\s*$", ln)
+                if not m:
+                    raise AnchorLost("%s:%d: bad //@chain" % (self.vc_path, lno))
+                new_expr = rewrite_method_chain(new_expr, m.group(1).split(), m.group(2), self.counts, name_hint(variant))
+        block = [x for x in block if not x[1].startswith("//@chain")]
         ftype = "Fn() -> Response" if guard == "apply_if_auth" else "Fn(&Database) -> Response"
         params = []
         for field, bind in bindings:
@@ -993,8 +1047,20 @@ class Unit:
         for lno, ln in ghost_lines:
             self.emit(ln, owner_name, None, "ghost", src="%s:%d" % (os.path.basename(self.vc_path), lno))
             self.counts.add("ghost-insertions")
+        aghost, aglabel = False, None
         for q, bl in enumerate(new_expr.split("\n")):
-            self.emit(bl, owner_name, None, "body", src="%s:%d" % (rel, src_line + q))
+            if bl.startswith("/*@ghost-begin"):
+                aghost = True; aglabel = None; continue
+            if bl.startswith("/*@ghost-end*/"):
+                aghost = False; aglabel = None; continue
+            if aghost:
+                mlab = re.match(r"\s*//\s*\[([^\]]*)\]", bl)
+                if mlab:
+                    aglabel = mlab.group(1).strip() or None
+                    if aglabel:
+                        for lb in [x.strip() for x in aglabel.split(",")]:
+                            if lb and lb not in labels: labels.append(lb)
+            self.emit(bl, owner_name, aglabel if aghost else None, "ghost" if aghost else "body", src="%s:%d" % (rel, src_line + q))
         self.emit("}", owner_name, None, "glue")
         self.functions.append(dict(path=name, file=rel, line=src_line, external=False, labels=labels, mutself=False))
         self.diffs[name] = "".join(difflib.unified_diff(expr.splitlines(True), new_expr.splitlines(True),
@@ -1203,27 +1269,7 @@ class Unit:
                 a, b = find_anchor(new_body, anchor, "%s (%s:%d)" % (path, os.path.basename(self.vc_path), lno))
                 if mode == "closure":
                     typed, bind, clines, asname = ins
-                    btoks = [t for t in lex(new_body) if t.kind in CODE and t.start >= b]
-                    if not btoks:
-                        raise AnchorLost("%s: closure `%s` has no body" % (path, anchor))
-                    if btoks[0].text == "{":
-                        allt = lex(new_body)
-                        qi = next(idx for idx, t in enumerate(allt) if t.start == btoks[0].start)
-                        e = allt[match_close(allt, qi)].end
-                    else:
-                        depth, e = 0, None
-                        for t in btoks:
-                            if t.kind == "p" and t.text in "([{": depth += 1
-                            elif t.kind == "p" and t.text in ")]}":
-                                if depth == 0: e = t.start; break
-                                depth -= 1
-                            elif t.kind == "p" and t.text == "," and depth == 0:
-                                e = t.start; break
-                        if e is None:
-                            raise AnchorLost("%s: closure `%s`: end of body not found" % (path, anchor))
-                    cb = new_body[btoks[0].start:e].rstrip()
-                    text = "\n".join(x[1] for x in clines)
-                    ctext = typed + "\n/*@ghost-begin %d*/\n%s\n/*@ghost-end*/\n{ %s %s }" % (lno, text, bind, cb)
+                    ctext, e = apply_closure_edit(new_body, a, b, typed, bind, clines, lno, "%s: closure `%s`" % (path, anchor))
                     if asname:
                         # the closure literal is bound to a local right before the top-level statement of the function body that contains it (creating a
                         # closure has no effect; what it captures is borrowed, so it cannot change in between) - ghost code can then name it
@@ -1367,6 +1413,16 @@ def _stmts_end(text, start, count):
         first = code[i].text
         blocklike = first in ("match", "if", "for", "while", "loop", "{", "unsafe")
         depth = 0
+        if first in ("if", "while") and i + 1 < len(code) and code[i + 1].text == "let":
+            # `if let PATTERN = EXPR { .. }`: the braces of a struct pattern do not end the statement - skip to the `=` that ends the pattern
+            d2 = 0
+            while i < len(code):
+                t = code[i]
+                if t.kind == "p" and t.text in "([{": d2 += 1
+                elif t.kind == "p" and t.text in ")]}": d2 -= 1
+                elif t.kind == "p" and t.text == "=" and d2 == 0:
+                    i += 1; break
+                i += 1
         while i < len(code):
             t = code[i]
             if t.kind == "p" and t.text in "([{": depth += 1
